@@ -277,6 +277,34 @@ def run_pairs(ctx, scs, name):
     write_ndjson(inp, obsreq)
     ctx.run_vh(["api", "-in", inp, "-out", outp], timeout=3000)
     obs = {r["id"]: r for r in read_ndjson(outp)}
+    # the same two changes through the command (one patch file, and one -p per change) for a seeded sample:
+    # what the command does before and between the changes must not alter the outcome
+    import fam_run as fr
+    sample = meta if len(meta) <= 160 else [meta[i] for i in sorted(ctx.rng.sample(range(len(meta)), 160))]
+    scs_cli = []
+    for m in sample:
+        files = [dict(path="subject.go", content=m["src"]), dict(path="both.patch", content=m["patch"]), dict(path="p1.patch", content=m["p1"]),
+                 dict(path="p2.patch", content=m["patch"][len(m["p1"]) + 1:])]
+        for route, args in (("one", ["-p", "both.patch", "subject.go"]), ("each", ["-p", "p1.patch", "-p", "p2.patch", "subject.go"])):
+            scs_cli.append(dict(id="%s|%s" % (m["id"], route), files=files, dirs=[], symlinks=[], args=args, stdin="", cwd="", strace=False))
+    cli_meta = []
+    obsreq = []
+    for r in fr.run_cli(ctx, scs_cli, name + "-cli"):
+        mid, route = r["id"].rsplit("|", 1)
+        m0 = next(x for x in meta if x["id"] == mid)
+        err = "" if r["exit"] == 0 and not r["timeout"] else (r["stderr"] or "failed")[:300]
+        m2 = dict(m0, id=r["id"], out=r["content"].get("subject.go", ""), err=m0["err"] or err, route=route)
+        cli_meta.append(m2)
+        obsreq.append(dict(id=r["id"] + "|out", op="impobs", src=m2["out"] if not err else m0["src"]))
+    if obsreq:
+        inp, outp = ctx.path("imp", name + ".cliobs.in.ndjson"), ctx.path("imp", name + ".cliobs.out.ndjson")
+        write_ndjson(inp, obsreq)
+        ctx.run_vh(["api", "-in", inp, "-out", outp], timeout=3000)
+        for r in read_ndjson(outp):
+            obs[r["id"]] = r
+        for m2 in cli_meta:
+            obs[m2["id"] + "|mid"] = obs[m2["id"].rsplit("|", 1)[0] + "|mid"]
+    meta = meta + cli_meta
     lines = []
     for m in meta:
         om, oo = obs[m["id"] + "|mid"], obs[m["id"] + "|out"]
